@@ -185,8 +185,13 @@ claim("C05",
       "exactly as it is when the reward task fires again), C05_only_all_ended, C05_effect, C05_forbidden, C05_reset; across labels, by induction over all label sequences (invariant "
       "Inv2, Proofs/CoordInv2.v, CoordAgentStep.v): C05_once_episode (from any reachable state in which an agent is rewarded, "
       "every continuation without a run of the reset task leaves its reward, status, view and counter exactly as they are while it "
-      "is in the game), C05_rewarded_ended (no bonus before the end), C05_reward_moves. The monitor checks the same over every task "
-      "step of real sessions.", C_NOTE, C_TECH, "DESIGN.md section 7, C05")
+      "is in the game), C05_rewarded_ended (no bonus before the end), C05_reward_moves; C05_rewards_scale (Props/C05_scale.v, "
+      "Proofs/CoordScale.v: rewards enter only as the three configured numbers and their sums - the transition system with the "
+      "configured rewards multiplied by any k is the original one with every stored, sent and recorded reward multiplied by k and "
+      "nothing else changed; it is also why following fractional rewards at a scale at which they are whole numbers is exact). The "
+      "monitor checks the same over every task step of real sessions, and every session is played a second time on the real "
+      "coordinator with the configured rewards divided by 16 (all answers must be the original ones with the rewards divided by 16).",
+      C_NOTE, C_TECH, "DESIGN.md section 7, C05")
 claim("C06",
       "Rocq theorems: C06_end (handlers waiting for the end are released only by the reward task, which does nothing unless every "
       "agent in the game has finished), C06_end_all (then all are released in one step: no lost wake-up), C06_quiescent, C06_nonfinal "
